@@ -52,16 +52,27 @@ int64_t CDNS::CdnsDecoder::read_negative()
                                     std::to_string(item_length)).c_str());
     }
 
-    return -1 - read_int(item_length);
+    // Values below INT64_MIN can't be represented, saturate instead of wrapping around
+    uint64_t value = read_int(item_length);
+    if (value > static_cast<uint64_t>(INT64_MAX))
+        return INT64_MIN;
+
+    return -1 - static_cast<int64_t>(value);
 }
 
 int64_t CDNS::CdnsDecoder::read_integer()
 {
     CborType peek = peek_type();
     switch (peek) {
-        case CborType::UNSIGNED:
-            return read_unsigned();
+        case CborType::UNSIGNED: {
+            // Values above INT64_MAX can't be represented, saturate instead of wrapping around to
+            // a negative number (e.g. an unknown map key 2^64-1 must not be taken for key -1)
+            uint64_t value = read_unsigned();
+            if (value > static_cast<uint64_t>(INT64_MAX))
+                return INT64_MAX;
+            return static_cast<int64_t>(value);
             break;
+        }
         case CborType::NEGATIVE:
             return read_negative();
             break;
